@@ -137,6 +137,12 @@ func (x *Exec) freshResult(st *State, hint string, res *types.Tuple) *Val {
 
 func (x *Exec) ghostCall(st *State, name string, args []*Val) {
 	x.sinkGuards(st, name, args)
+	x.ghostCount(st, name, args)
+}
+
+// ghostCount records a call (counter, last arguments) without checking sink guards: calls by
+// contract check their guards before the callee's frame is havoc'd.
+func (x *Exec) ghostCount(st *State, name string, args []*Val) {
 	k := "ncalls:" + name
 	cur := st.ghost[k]
 	if cur == nil {
@@ -364,6 +370,9 @@ func (x *Exec) applyContract(st *State, fr *Frame, c *Contract, sig *types.Signa
 		}
 		x.check(st, t, "precondition", cname+"."+cl.ID, x.site(pos), "callee "+cname+" requires "+cl.Text)
 	}
+	// guard obligations of the function under verification for this callee: in the state of
+	// the call, before the callee's frame is havoc'd
+	x.sinkGuards(st, cname, args)
 	for _, a := range args {
 		x.markEscaped(st, a)
 	}
@@ -423,7 +432,7 @@ func (x *Exec) applyContract(st *State, fr *Frame, c *Contract, sig *types.Signa
 			x.aborted = "vacuity: the postconditions assumed for " + cname + " at " + x.site(pos) + " contradict the state at the call (a reachable call has no possible outcome)"
 		}
 	}
-	x.ghostCall(st, cname, args)
+	x.ghostCount(st, cname, args)
 	x.ghostRet(st, cname, res)
 	if c.Extern {
 		x.note("assumed contract (extern): " + cname)
